@@ -71,6 +71,30 @@ try:
             return xs
 
 
+        def t_inv_a(x0: float, c: float, n: int) -> typing.List[float]:
+            out = []
+            cur = x0
+            rate = c
+            for _ in range(n):
+                if not cur > 0:
+                    raise ValueError("exhausted")
+                out.append(cur * rate)
+                cur = cur - rate
+                rate = (lambda: c)()
+            return out
+
+
+        def t_inv_b(x0: float, c: float, n: int) -> typing.List[float]:
+            out = []
+            cur = x0
+            for _ in range(n):
+                if not cur > 0:
+                    raise ValueError("exhausted")
+                out.append(cur * c)
+                cur = cur - c
+            return out
+
+
         def t_switch_off():
             attr.validators.set_disabled(True)
 
@@ -98,6 +122,9 @@ try:
     b = analyse(repo, repo.find_function("t_indexed"), cfg)[0].value
     assert a.kind == b.kind == "series" and a.popped == b.popped == 1 and key_equiv(val_key(a.init[0]), val_key(b.init[0])) \
         and key_equiv(val_key(a.per_iter[0]), val_key(b.per_iter[0])), (a, b)
+    ia = [x for x in analyse(repo, repo.find_function("t_inv_a"), cfg) if x.kind == "return"]
+    ib = [x for x in analyse(repo, repo.find_function("t_inv_b"), cfg) if x.kind == "return"]
+    assert len(ia) == len(ib) == 1 and key_equiv(val_key(ia[0].value.per_iter[0]), val_key(ib[0].value.per_iter[0])), (ia, ib)
     from sa.props.c18 import validator_switches
     assert len(validator_switches(repo)) == 1
     from sa.props.c10 import counter_bounded
